@@ -766,7 +766,7 @@ class Tuple(Criterion):
     def get_sql(self, ctx: SqlContext) -> str:
         value_ctx = ctx.copy(with_alias=False)
         sql = "({})".format(",".join(term.get_sql(value_ctx) for term in self.values))
-        return format_alias_sql(sql, self.alias, ctx)
+        return format_alias_sql(sql, self.alias, ctx) if ctx.with_alias else sql
 
     @property
     def is_aggregate(self) -> bool | None:  # type:ignore[override]
